@@ -190,14 +190,19 @@ Retry(p, s) == IF s.cli.st # "gone" THEN {} ELSE CliStart(p, [s EXCEPT !.cli.st 
 \*   again    the exchange has completed; the application issues its next request with the same token at once (a response
 \*            of exactly one block is still held by the server - nobody ever asks for a second block: SrvAnswer refuses)
 Again(p, s) == IF s.cli.st # "done" THEN {} ELSE CliStart(p, [s EXCEPT !.cli.st = "idle"])
-RetryActs == {[a |-> x, d |-> "c2s", k |-> 0] : x \in {"abandon", "lapse", "restart", "retry", "again"}}
+\*   stale    the transfer timeout passes on the client while its request is still waiting for the rest of a response body, and no
+\*            sweep has run: what it holds of the body sits in the cache, expired - abstractly it is gone; the block that arrives
+\*            next finds nothing held (CliRecvResp in state "down": it is not appended and the body is requested again from
+\*            block 0 - also when that block is the last one)
+Stale(p, s) == IF s.cli.st # "down" \/ s.cli.file = <<>> THEN {} ELSE {[s EXCEPT !.cli.file = <<>>]}
+RetryActs == {[a |-> x, d |-> "c2s", k |-> 0] : x \in {"abandon", "lapse", "restart", "retry", "again", "stale"}}
 
 Acts == {[a |-> "start", d |-> "c2s", k |-> 0], [a |-> "lose", d |-> "c2s", k |-> 0]}
         \cup {[a |-> x, d |-> d, k |-> 0] : x \in {"deliver", "dup", "drop"}, d \in {"c2s", "s2c"}}
         \cup {[a |-> "replay", d |-> "c2s", k |-> k] : k \in 1..12}
 Apply(p, s, a) == CASE a.a = "start" -> CliStart(p, s) [] a.a = "deliver" -> Deliver(p, s, a.d) [] a.a = "dup" -> Dup(p, s, a.d)
                  [] a.a = "drop" -> Drop(p, s, a.d) [] a.a = "replay" -> Replay(p, s, a.k) [] a.a = "lose" -> Lose(p, s)
-                 [] a.a = "abandon" -> Abandon(p, s) [] a.a = "lapse" -> Lapse(p, s) [] a.a = "restart" -> Restart(p, s) [] a.a = "retry" -> Retry(p, s) [] a.a = "again" -> Again(p, s)
+                 [] a.a = "abandon" -> Abandon(p, s) [] a.a = "lapse" -> Lapse(p, s) [] a.a = "restart" -> Restart(p, s) [] a.a = "retry" -> Retry(p, s) [] a.a = "again" -> Again(p, s) [] a.a = "stale" -> Stale(p, s)
 
 (* ----------------------------------- C04 ---------------------------------- *)
 \* every delivery to the server application is the exact request body; every body returned to the caller is the exact response body
